@@ -165,7 +165,7 @@ def _frame(ctx, SPEC):
                 good = good and v0.get("k") == "Index" and H.show(v0["idx"]) == ivar
             which = "fcs" if "fcs" in H.show(a["l"]) else "did"
             n += 1
-            ctx.check(good and it.startswith("0.."), R, "reader::%s-little-endian" % which, H.loc(body, a),
+            ctx.check(good and it.startswith(("0..", "..")), R, "reader::%s-little-endian" % which, H.loc(body, a),
                       "%s must be assembled little-endian: value += (buf[i] as _) << (8 * i) for i in 0..len" % which,
                       observed=H.show(a))
         ctx.check(n == 2, R, "reader::le-loops", body["file"], "expected two little-endian assembly loops", observed=n)
@@ -210,9 +210,9 @@ def _frame(ctx, SPEC):
         ws = None
         for n in hq.find(body["body"], lambda x: x.get("k") == "LetStmt" and x["pat"].get("name") == "window_size"):
             ws = c(n["init"])
-        E = "core::convert::num::from((self.window_descriptor >> 3))"
-        M_ = "core::convert::num::from((7 & self.window_descriptor))"
-        base = "(1 << (%d + %s))" % (wd["log_base"], E)
+        E = "((self.window_descriptor >> 3) as u64)"
+        M_ = "((7 & self.window_descriptor) as u64)"
+        base = "(1 << (%s + %d))" % (E, wd["log_base"])
         accept = {"(%s + (%s * (%s / 8)))" % (base, M_, base), "(%s + ((%s / 8) * %s))" % (base, base, M_),
                   "((%s * (%s / 8)) + %s)" % (M_, base, base), "(((%s / 8) * %s) + %s)" % (base, M_, base)}
         ctx.check(ws in accept, RW, "reader::formula", body["file"],
@@ -230,7 +230,7 @@ def _frame(ctx, SPEC):
         conds = [x for x in conds if "single_segment" not in x]
         wsn = "@mut:1" if False else None
         norm = sorted(x.replace(ix.canon({"k": "Local", "name": "window_size", "lid": lets["window_size"]["pat"]["lid"]}), "WS") for x in conds)
-        want = sorted(["(ruzstd::common::MIN_WINDOW_SIZE <= WS)", "(WS <= ruzstd::common::MAX_WINDOW_SIZE)"])
+        want = sorted(["(%d <= WS)" % wd["min"], "(WS <= %d)" % wd["max"]])
         ctx.check(norm == want, "C14.range.window-legal", "window_size::accepts-exactly-legal-range", H.loc(body, oks[0]),
                   "a window size is accepted iff MIN_WINDOW_SIZE <= size <= MAX_WINDOW_SIZE (both legal per RFC 8878); "
                   "descriptor 0xFF encodes exactly the maximum", observed=norm, expected=want)
@@ -306,7 +306,7 @@ def _frame(ctx, SPEC):
         for x in hq.find(sb["body"], lambda x: x.get("k") == "MethodCall" and x["name"] in ("push", "extend_from_slice", "extend")):
             outs.append((x["name"], c(x["args"][0]), x))
         seq = [o[1] for o in outs]
-        ctx.check(len(seq) >= 3 and seq[0] == "core::num::to_le_bytes(ruzstd::common::MAGIC_NUM)" and
+        ctx.check(len(seq) >= 3 and seq[0] == "core::num::to_le_bytes(%d)" % SPEC["magic"]["frame"] and
                   seq[1].endswith("FrameHeader::descriptor(self)"), RE, "serialize::magic-then-descriptor", sb["file"],
                   "frame must start with the little-endian magic number followed by the descriptor", observed=seq[:2])
         wexp = "((if (10 < core::num::ilog2(core::num::next_power_of_two($W))) { (core::num::ilog2(core::num::next_power_of_two($W)) - 10) } else { 1 } as u8) << 3)"
@@ -348,16 +348,17 @@ def _window_byte_ok(body, node):
     if e.get("k") != "If":
         return False
     cond = res(e["cond"])
-    if not (cond.get("k") == "Binary" and cond["op"] == ">" and H.lit_val(cond["r"]) == 10):
+    # normal form: `log > 10` reads `10 < log`
+    if not (cond.get("k") == "Binary" and cond["op"] == "<" and H.lit_val(cond["l"]) == 10):
         return False
-    lg = res(cond["l"])
+    lg = res(cond["r"])
     if not (lg.get("k") == "MethodCall" and lg["name"] == "ilog2"):
         return False
     npo = res(lg["recv"])
     if not (npo.get("k") == "MethodCall" and npo["name"] == "next_power_of_two"):
         return False
     th = res(e["then"])
-    if not (th.get("k") == "Binary" and th["op"] == "-" and H.lit_val(th["r"]) == 10 and c(th["l"]) == c(cond["l"])):
+    if not (th.get("k") == "Binary" and th["op"] == "-" and H.lit_val(th["r"]) == 10 and c(th["l"]) == c(cond["r"])):
         return False
     el = H.lit_val(res(e["else"]))
     return isinstance(el, int) and el >= 0
@@ -487,7 +488,7 @@ def _block(ctx, SPEC):
                   "serialized block header must be last(1) | type(2) | size(21), LSB first", observed=B.describe(acc[:32]))
         ext = [x for x in hq.find(body["body"], lambda x: x.get("k") == "MethodCall" and x["name"] == "extend_from_slice")]
         c = hq.Canon(body)
-        ok = len(ext) == 1 and "to_le_bytes" in c(ext[0]["args"][0]) and c(ext[0]["args"][0]).endswith("[0..3]")
+        ok = len(ext) == 1 and "to_le_bytes" in c(ext[0]["args"][0]) and c(ext[0]["args"][0]).endswith(("[0..3]", "[..3]"))
         ctx.check(ok, R, "writer::three-le-bytes", body["file"], "block header is the first three little-endian bytes",
                   observed=[c(x["args"][0]) for x in ext])
     ctx.guard(R, "writer", writer)
@@ -999,7 +1000,7 @@ def _refuse(ctx, SPEC):
         conds = [p["cond"] for p in ix.path_conditions(oks[0])] if oks else []
         want = "(core::num::<impl u32>::MAX" if False else None
         good = any(c.replace("ruzstd::decoding::block_decoder::BlockDecoder::block_content_size_unchecked(self)", "V") ==
-                   "(V <= ruzstd::common::MAX_BLOCK_SIZE)" for c in conds)
+                   "(V <= %d)" % SPEC["block_header"]["max_block_size"] for c in conds)
         ctx.check(good, R, "block-size-above-128KiB", body["file"], "a block size above MAX_BLOCK_SIZE must be refused",
                   observed=conds)
         rb = ctx.hir(BD + "::read_block_header")
